@@ -282,31 +282,31 @@ ni_harness!(aes128_history, 16 + 16 + 16 * 5 + 1, 70, |inp| {
 // ------------------------------------------------------------------ C19 on the autodetect types
 // (C16 for these types lives in auto_inner.rs, an inner module of crate::autodetect that can run CPU detection directly)
 
-//@ harness name=aes128_debug prop=C19 tier=quick bits=5632 est=40 variants=aes:ni desc="Debug of an arbitrary-state Aes128 equals Debug of the zero instance and starts with Aes128"
+//@ harness name=aes128_debug prop=C19 tier=quick bits=5632 variants=aes:ni est=15 desc="Debug of an arbitrary-state Aes128 equals Debug of the zero instance and starts with Aes128"
 g_debug!(aes128_debug, crate::Aes128, "Aes128", generic::always);
-//@ harness name=aes128enc_debug prop=C19 tier=quick bits=5632 est=40 variants=aes:ni desc="Debug of Aes128Enc is key independent and names the type"
+//@ harness name=aes128enc_debug prop=C19 tier=quick bits=5632 variants=aes:ni est=15 desc="Debug of Aes128Enc is key independent and names the type"
 g_debug!(aes128enc_debug, crate::Aes128Enc, "Aes128Enc", generic::always);
-//@ harness name=aes128dec_debug prop=C19 tier=quick bits=5632 est=40 variants=aes:ni desc="Debug of Aes128Dec is key independent and names the type"
+//@ harness name=aes128dec_debug prop=C19 tier=quick bits=5632 variants=aes:ni est=15 desc="Debug of Aes128Dec is key independent and names the type"
 g_debug!(aes128dec_debug, crate::Aes128Dec, "Aes128Dec", generic::always);
-//@ harness name=aes192_debug prop=C19 tier=quick bits=6656 est=40 variants=aes:ni desc="Debug of Aes192 is key independent and names the type"
+//@ harness name=aes192_debug prop=C19 tier=quick bits=6656 variants=aes:ni est=15 desc="Debug of Aes192 is key independent and names the type"
 g_debug!(aes192_debug, crate::Aes192, "Aes192", generic::always);
-//@ harness name=aes192enc_debug prop=C19 tier=quick bits=6656 est=40 variants=aes:ni desc="Debug of Aes192Enc is key independent and names the type"
+//@ harness name=aes192enc_debug prop=C19 tier=quick bits=6656 variants=aes:ni est=15 desc="Debug of Aes192Enc is key independent and names the type"
 g_debug!(aes192enc_debug, crate::Aes192Enc, "Aes192Enc", generic::always);
-//@ harness name=aes192dec_debug prop=C19 tier=quick bits=6656 est=40 variants=aes:ni desc="Debug of Aes192Dec is key independent and names the type"
+//@ harness name=aes192dec_debug prop=C19 tier=quick bits=6656 variants=aes:ni est=15 desc="Debug of Aes192Dec is key independent and names the type"
 g_debug!(aes192dec_debug, crate::Aes192Dec, "Aes192Dec", generic::always);
-//@ harness name=aes256_debug prop=C19 tier=quick bits=7680 est=40 variants=aes:ni desc="Debug of Aes256 is key independent and names the type"
+//@ harness name=aes256_debug prop=C19 tier=quick bits=7680 variants=aes:ni est=15 desc="Debug of Aes256 is key independent and names the type"
 g_debug!(aes256_debug, crate::Aes256, "Aes256", generic::always);
-//@ harness name=aes256enc_debug prop=C19 tier=quick bits=7680 est=40 variants=aes:ni desc="Debug of Aes256Enc is key independent and names the type"
+//@ harness name=aes256enc_debug prop=C19 tier=quick bits=7680 variants=aes:ni est=15 desc="Debug of Aes256Enc is key independent and names the type"
 g_debug!(aes256enc_debug, crate::Aes256Enc, "Aes256Enc", generic::always);
-//@ harness name=aes256dec_debug prop=C19 tier=quick bits=7680 est=40 variants=aes:ni desc="Debug of Aes256Dec is key independent and names the type"
+//@ harness name=aes256dec_debug prop=C19 tier=quick bits=7680 variants=aes:ni est=15 desc="Debug of Aes256Dec is key independent and names the type"
 g_debug!(aes256dec_debug, crate::Aes256Dec, "Aes256Dec", generic::always);
-//@ harness name=aes128_algname prop=C19 tier=quick bits=0 est=40 variants=aes:ni desc="AlgorithmName of Aes128 names AES and the key size"
+//@ harness name=aes128_algname prop=C19 tier=quick bits=0 variants=aes:ni est=15 desc="AlgorithmName of Aes128 names AES and the key size"
 g_algname!(aes128_algname, crate::Aes128, ["aes", "128"]);
-//@ harness name=aes192_algname prop=C19 tier=quick bits=0 est=40 variants=aes:ni desc="AlgorithmName of Aes192 names AES and the key size"
+//@ harness name=aes192_algname prop=C19 tier=quick bits=0 variants=aes:ni est=20 desc="AlgorithmName of Aes192 names AES and the key size"
 g_algname!(aes192_algname, crate::Aes192, ["aes", "192"]);
-//@ harness name=aes256_algname prop=C19 tier=quick bits=0 est=40 variants=aes:ni desc="AlgorithmName of Aes256 names AES and the key size"
+//@ harness name=aes256_algname prop=C19 tier=quick bits=0 variants=aes:ni est=20 desc="AlgorithmName of Aes256 names AES and the key size"
 g_algname!(aes256_algname, crate::Aes256, ["aes", "256"]);
-//@ harness name=aes128enc_algname prop=C19 tier=quick bits=0 est=40 variants=aes:ni desc="AlgorithmName of Aes128Enc names AES and the key size"
+//@ harness name=aes128enc_algname prop=C19 tier=quick bits=0 variants=aes:ni est=20 desc="AlgorithmName of Aes128Enc names AES and the key size"
 g_algname!(aes128enc_algname, crate::Aes128Enc, ["aes", "128"]);
-//@ harness name=aes256dec_algname prop=C19 tier=quick bits=0 est=40 variants=aes:ni desc="AlgorithmName of Aes256Dec names AES and the key size"
+//@ harness name=aes256dec_algname prop=C19 tier=quick bits=0 variants=aes:ni est=20 desc="AlgorithmName of Aes256Dec names AES and the key size"
 g_algname!(aes256dec_algname, crate::Aes256Dec, ["aes", "256"]);
